@@ -551,12 +551,13 @@ def check(pid, tier, seed):
     if ok_h and cfg.get("needs_tables", False):
         gen_tables()
 
-    # 3. proofs (some obligations are regenerated from the source first)
-    if cfg.get("pre"):
-        try:
-            cfg["pre"]()
-        except Exception as e:
-            notes.append("pre-step failed: %r" % (e,))
+    # 3. proofs (the translator obligations are regenerated from the source first: the generators
+    #    rewrite their file only when its text changes, so an unchanged source costs nothing)
+    for g in ("gen_uidops.py", "gen_flowkey.py", "gen_langtables.py"):
+        with Lock("coq"):
+            rc, gout = sh([sys.executable, os.path.join(ROOT, "lib", g)])
+        if rc != 0:
+            notes.append("translator %s failed: %s" % (g, gout[-300:]))
     proof = proof_stage(pid, cfg)
 
     # 4. model driver
@@ -792,6 +793,7 @@ def setup():
         ensure_makefile()
     sh([sys.executable, os.path.join(ROOT, "lib", "gen_uidops.py")])
     sh([sys.executable, os.path.join(ROOT, "lib", "gen_flowkey.py")])
+    sh([sys.executable, os.path.join(ROOT, "lib", "gen_langtables.py")])
     # clean full build of the development
     sh(["make", "clean"], cwd=COQ)
     for f in glob.glob(os.path.join(COQ, "**", "*.vo*"), recursive=True) + glob.glob(os.path.join(COQ, "**", "*.glob"), recursive=True):
